@@ -9,15 +9,15 @@ import ScrutModel.Model.Markdown
   dropped), tokenized with the `MarkdownIterator` model (`tokenize`) and every token is written
   back (`emitTok`):
   * `Line` → the line, `assure_newline`;
-  * `DocumentConfig` → `---`, LF, the configuration lines joined with LF, LF, `---`, LF (for an
-    empty front-matter that is `---`, an empty line, `---`; an unterminated front-matter gets a
-    closing `---`);
+  * `DocumentConfig` → `---`, LF, every configuration line `assure_newline`, `---`, LF (an
+    unterminated front-matter gets a closing `---`);
   * `VerbatimCodeBlock` → its lines, each `assure_newline`;
   * `TestCodeBlock` without code lines → "```" + language + config, the comment lines, "```"; it
     consumes no outcome;
   * `TestCodeBlock` with code → `max_backtick_size(generated) + 1` backticks + language + config,
     the comment lines, the generated text **as it is**, the backticks (`assure_newline`); the
-    config is `" {" + config_lines.join("\n").trim_start() + "}"` if there are config lines.
+    config is `" {" + config_lines.join("\n").trim_start() + "}"` unless the joined config lines
+    hold nothing but white space (then it is empty).
 
 Parameter: `gens`, one entry per outcome – the text that `Outcome::generate_testcase` returns for
 it (`none`: it returns an error: timeout, skipped, internal error).  `outcomes.get(i)` is the
@@ -49,11 +49,12 @@ def maxBacktickSize (code : List Char) : Nat :=
 /-- `"`".repeat(n)` -/
 def backticks (n : Nat) : Line := List.replicate n '`'
 
-/-- `format!(" {{{}}}", config_lines.join_newline().trim_start())` or `""` -/
+/-- `if config_text.trim().is_empty() { "" } else { format!(" {{{}}}", config_text.trim_start()) }` -/
 def configSuffix (cfg : Numbered) : List Char :=
-  if cfg.isEmpty then [] else ' ' :: '{' :: (trimStart (joinNumbered cfg) ++ ['}'])
+  let text := joinNumbered cfg
+  if (trim text).isEmpty then [] else ' ' :: '{' :: (trimStart text ++ ['}'])
 
-/-- `for (_, line) in &comment_lines { updated.push_str(&line.assure_newline()) }` -/
+/-- `for (_, line) in &lines { updated.push_str(&line.assure_newline()) }` (comment lines, front-matter lines) -/
 def commentText (comments : Numbered) : List Char := comments.flatMap (fun c => assureNewline c.2)
 
 /-- opening line, comment lines, body, closing line of a rewritten scrut block -/
@@ -64,7 +65,7 @@ def testBlock (bt language : Line) (cfg comments : Numbered) (body : List Char) 
 `testcase_index` -/
 def emitTok (gens : List (Option (List Char))) (k : Nat) : Tok → Except Err (List Char × Nat)
   | .line _ l => .ok (assureNewline l, k)
-  | .docConfig ls => .ok (['-', '-', '-', '\n'] ++ joinNumbered ls ++ ['\n', '-', '-', '-', '\n'], k)
+  | .docConfig ls => .ok (['-', '-', '-', '\n'] ++ commentText ls ++ ['-', '-', '-', '\n'], k)
   | .verbatim _ _ ls => .ok (ls.flatMap assureNewline, k)
   | .test language cfg comments code =>
     -- a code block without code holds no test, hence has no outcome
